@@ -43,6 +43,12 @@ def draw_system(rng, seed: int, prop: str, *, families=("single",) * 6 + ("cross
         if lazy:
             d = copy.deepcopy(d)
             d["chunks"] = space.draw_chunks(rng)
+            if rng.random() < 0.6:
+                # (dask's exact SVD - full solver, whitening - refuses arrays chunked along both dimensions;
+                #  a refusal is consistent on both sides but teaches nothing)
+                d["chunks"] = {"mode": rng.choice(["single", "sample"]), "n": d["chunks"]["n"]}
+                if d["container"] != "da" and rng.random() < 0.7:
+                    d["container"] = "da"
         return d
 
     if fam == "single":
@@ -70,8 +76,18 @@ def draw_system(rng, seed: int, prop: str, *, families=("single",) * 6 + ("cross
         fits["F0"] = {"X": "D0", "w": "W0" if "W0" in descs else None}
         fits["F1"] = {"X": "D1", "w": None}
         fits["F2"] = {"X": "D2", "w": None}
-        new = {"F0": ["N0", "N1"], "F1": ["N0", "N1"], "F2": ["N2"]}
-        bad = {"F0": ["N2"], "F1": ["N2"], "F2": ["N0"]}
+        # a data set of small rank (three features): a fit that asks for more modes than that fails - and must
+        # leave nothing behind that a later fit could pick up
+        ds_ = space.draw_layout(rng, **dict(lay, max_features=3, min_features=3, allow_nan=False, containers=("da",)))
+        if spec.time_ordered:
+            ds_["sample"] = ds_["sample"][:1]
+            ds_["sample"][0][1] = max(ds_["sample"][0][1], 18)
+            ds_.pop("multiindex", None)
+            ds_.pop("perm_seed", None)
+        descs["D3"] = chunked(ds_)
+        fits["F3"] = {"X": "D3", "w": None}
+        new = {"F0": ["N0", "N1"], "F1": ["N0", "N1"], "F2": ["N2"], "F3": []}
+        bad = {"F0": ["N2"], "F1": ["N2"], "F2": ["N0"], "F3": ["N0"]}
         if not lazy and gen.n_features_total(d0) >= 4 and not d0.get("nan_features"):
             # same layout, but an entirely missing feature the training data did not have (a malformed call)
             descs["NN0"] = dict(copy.deepcopy(descs["N0"]), nan_features=1)
@@ -145,6 +161,8 @@ def draw_system(rng, seed: int, prop: str, *, families=("single",) * 6 + ("cross
         a = space.draw_layout(rng, **lay)
         b = space.paired_layout(rng, a, **lay)
         c = space.paired_layout(rng, a, **lay)
+        for v in (a, b, c):
+            v.pop("extra_coord", None)      # views with (different) auxiliary coordinates cannot be concatenated
         descs.update(A0=a, B0=b, C0=c)
         # same number of views, other values and another sample count (per-view state must not survive)
         n1 = a["sample"][0][1] + rng.choice([0, 4, -3])
@@ -156,6 +174,8 @@ def draw_system(rng, seed: int, prop: str, *, families=("single",) * 6 + ("cross
         # the same number of views with other feature counts
         a2 = space.draw_layout(rng, **lay)
         b2 = space.paired_layout(rng, a2, **lay)
+        a2.pop("extra_coord", None)
+        b2.pop("extra_coord", None)
         descs.update(A2=a2, B2=b2)
         fits["F3"] = {"views": ["A2", "B2"]}
         new = {"F0": [], "F1": [], "F2": [], "F3": []}
